@@ -464,9 +464,14 @@ func C02(x *Ctx) {
 						lhs := (e.DTS - segStart.DTS) * 1e9
 						rhs := minNS * rate
 						elapsedOK := "no"
+						// the code under test converts both timestamps to integral nanoseconds
+						// before subtracting: when a timestamp is not an integral number of ns the
+						// difference can be off by up to 1 ns either way (also at exact equality)
+						representable := (e.DTS*1e9)%rate == 0 && (segStart.DTS*1e9)%rate == 0
 						switch {
-						case lhs == rhs:
+						case lhs == rhs && representable:
 							elapsedOK = "yes"
+							x.Stats.Add("C02.cuts_exactly_at_min_duration", 1)
 						case lhs-rhs > -rate && lhs-rhs < rate:
 							elapsedOK = "either"
 						case lhs > rhs:
